@@ -118,6 +118,8 @@ class HandlerEval:
 
 
 def run(chk: Check, repo: Repo) -> None:
+    from .common_rules import kdf_parameters
+    kdf_parameters(chk, repo, ["xknx.secure.keyring:hash_keyring_password"])
     h = repo.cls(M, "KeyringSAXContentHandler")
     bl = repo.const(h, "_attribute_blacklist")
     chk.ob("signature-excludes-exactly-xmlns-and-signature", f"{h.module.relpath}:{h.node.lineno}:{h.name}", isinstance(bl, tuple) and sorted(bl) == ["Signature", "xmlns"], f"_attribute_blacklist = {bl!r}", key="sig|blacklist")
